@@ -1,5 +1,86 @@
 NOT_BUILT = {}
-add("C09", "offline checker over recorded emit/sink logs (per-key slicing with unique row ids), race detector",
-    "Runs the real engine on PRNG-generated keyed streams and checks every delivery against the per-key slicing reference; held on the executions listed in the evidence, nothing more.",
-    "Trusts the sync-sink recorder and collect(id)/first_value/last_value as witnesses; surplus deliveries arriving after the settle period are not seen.",
+
+RACE = "; built and run under the Go race detector, reports touching engine frames are violations"
+COMMON_NOTE = ("Held on the executions listed in the evidence file, nothing more. Trusted base: the harness recorders (sync-sink deep copies, emit counters), "
+               "the reference model written for this check, and the Go runtime/race detector. ")
+
+add("C01", "offline checker over recorded emit/sink logs (exactly-once set algebra on unique row ids) + race detector + hook-observed timestamps",
+    "Real engine on PRNG-generated event-time sequences (in order, jittered, late, earlier-than-first, boundary, garbage) closed by a sentinel, and on paced processing-time runs whose assigned timestamps are observed at the window.add.ts hook; every delivered result is checked for membership, alignment, aggregates, exactly-once and no-duplicate-interval" + RACE + ".",
+    COMMON_NOTE + "Single producer (emission order = arrival order). A missing window is declared only after the engine stayed quiet with empty buffers and a further wait. Interleavings of ingest vs trigger goroutine are sampled with yield-point perturbation, not enumerated.",
+    "DESIGN.md §5 C01")
+add("C02", "online watermark-discipline monitor (started-Emit counter at each delivery), late-update chain checker, garbage-insertion metamorphic test, idle-timeout probe" ,
+    "Four case streams over tumbling/sliding/session windows: no delivery before an Emit with ts ≥ window_end+MAXOUTOFORDERNESS started; on-time rows never discarded; with ALLOWEDLATENESS late rows aimed at fired windows must be re-delivered under the same window_id with previous contents plus the row, too-late rows must change nothing (also under burst schedules); garbage rows (far future, unusable timestamp, too late) must not change the result multiset; IDLETIMEOUT fires after idle and not before" + RACE + ".",
+    COMMON_NOTE + "The no-early-firing condition is necessary, not sufficient (started ≥ processed). The zone where the statement's two lateness criteria disagree is left unconstrained (DESIGN §5 C02).",
+    "DESIGN.md §5 C02")
+add("C03", "reference-model monitor (per-function mathematical reference) + permutation and state-leak metamorphic tests over CountingWindow batches",
+    "Every aggregate column of every delivered CountingWindow(N) batch is compared with an independently written reference applied to the batch's witness rows; shuffled batches and fresh-instance batches must agree.",
+    COMMON_NOTE + "percentile/merge_agg are weakly documented, the oracle accepts every standard reading.",
+    "DESIGN.md §5 C03")
+add("C04", "partition-by-typed-tuple checker over recorded deliveries (counting, event-time tumbling, event-time session, global windows)",
+    "Result rows of each delivered batch are compared with the typed-tuple partition of the batch's witness rows (collect(id)); separator-heavy key alphabet incl. NULL/''/'|'/unit separator and the ('a|b','c') vs ('a','b|c') pair.",
+    COMMON_NOTE + "One scalar type per key column, as the property's quantifier states.",
+    "DESIGN.md §5 C04")
+add("C05", "reference filter/projection + three-way path equality (EmitSync / sync sink / channel) + order monitor under load" ,
+    "Generated direct queries are evaluated by the engine on three API paths and by a row-wise reference; per-id results must agree, must not depend on history, and a single producer's results must arrive in emission order at a sync sink and on the channel" + RACE + ".",
+    COMMON_NOTE + "Constructs whose SQL meaning the statement leaves open are checked for invariance only.",
+    "DESIGN.md §5 C05")
+add("C06", "independent reference interpreter + layout/site/history invariance (fresh child processes) + built-in function sweep with hostile arguments",
+    "Generated expressions (depth ≤ 4) are evaluated through SELECT/WHERE on typed rows and compared with a reference interpreter; the same AST in different layouts and sites must agree; results must not depend on which rows the process-wide caches saw first (checked in fresh child processes); ~86 built-ins are compared with Go-stdlib references and must never panic.",
+    COMMON_NOTE + "SQL semantics are applied only where the statement pins them down; text/bool operands in arithmetic are checked for invariance and absence of panic only.",
+    "DESIGN.md §5 C06")
+add("C07", "relational reference (aggregate → expression → DISTINCT → HAVING → ORDER BY → LIMIT) over recorded batches",
+    "Delivered batches of generated aggregate queries (CountingWindow per key, event-time tumbling windows with several groups) are compared with a relational reference; ordering is checked as a property of the output (sorted, length, excluded ≥ last included); hidden helper columns must not be visible.",
+    COMMON_NOTE + "Ties make the exact sequence non-deterministic; only order properties are checked.",
+    "DESIGN.md §5 C07")
+add("C08", "offline sliding membership / eviction / order checker over recorded emit and sink logs",
+    "Every slide-aligned interval that contains an accepted row and that the watermark passed must be delivered exactly once, in increasing order, with exactly the accepted rows inside (late-kept rows tolerated), for slide dividing size, not dividing, equal and larger" + RACE + ".",
+    COMMON_NOTE + "Single producer; a missing interval is declared only after a long engine-quiet wait.",
+    "DESIGN.md §5 C08")
+add("C09", "offline per-key slicing checker over recorded deliveries (unique row ids, collect/first_value/last_value witnesses)",
+    "For every key the i-th delivery must aggregate exactly rows (i-1)N+1..iN of that key in arrival order; no remainder, no duplicate, separator-heavy keys, burst/paced feeding and tiny output buffers" + RACE + ".",
+    COMMON_NOTE + "Surplus deliveries arriving after the settle period are not seen.",
     "DESIGN.md §5 C09")
+add("C10", "offline session partition / gap / bounds / no-early checker + feed-speed metamorphic test",
+    "Per key: every accepted row in exactly one session result, consecutive timestamps within the timeout, window_start/window_end equal the witness rows' min / max+timeout, no delivery before the watermark passed the end, identical outcome for in-order input at three feed speeds" + RACE + ".",
+    COMMON_NOTE + "Maximality of sessions is not demanded (the statement does not).",
+    "DESIGN.md §5 C10")
+add("C11", "totality monitor (recover + watchdog, inputs journaled to disk) + generator-AST faithfulness + layout metamorphic test through the public API",
+    "rsql.Parse is run on token soup, byte-mutated harvested SQL and raw bytes (no panic, termination, error xor config); generated statements are compared field by field with the returned config; re-rendered layouts must give equal configs and equal query results; keyword-like literals/identifiers must not become clauses.",
+    COMMON_NOTE + "Totality over all strings is sampled, not decided.",
+    "DESIGN.md §5 C11")
+add("C12", "differential monitor: shortcut-shaped predicate vs its parenthesised twin forced onto the general evaluator, at the package boundary and four SQL sites",
+    "For every operator / literal / chain shape and a hostile value grid (all int widths, NaN/Inf, 2^53±1, MaxInt64, MaxUint64, strings, bools, NULL, missing) the decision of the shortcut path must equal the general path; failing evaluations must reject, never abort the stream.",
+    COMMON_NOTE + "The general expr-lang path is the oracle, exactly as the property states; which path a text takes is read back by reflection.",
+    "DESIGN.md §5 C12")
+add("C13", "regexp-derived reference over a bounded-exhaustive (pattern, text) space at four SQL sites",
+    "All patterns × all texts over {%,_,a,b,.} up to length 3 (quick) / 4 (thorough, exhaustive for that bounded space) plus sampled long patterns with regex metacharacters; IS [NOT] NULL over present/NULL/missing/nested/function operands; WHERE, HAVING, CASE and SELECT sites must agree with the reference.",
+    COMMON_NOTE + "Exhaustive only for the stated bounded space.",
+    "DESIGN.md §5 C13")
+add("C14", "reference state machines per partition + sync/async parity + solo-vs-interleaved and concurrent isolation",
+    "Outputs of lag/latest/had_changed/changed_col(s)/acc_* (OVER PARTITION BY/WHEN, wrappers) are compared row by row with reference state machines; EmitSync and Emit+sink sequences must be identical; a partition's outputs must equal those of a solo run and of a concurrent per-partition feed" + RACE + ".",
+    COMMON_NOTE + "Semantics the documentation leaves open are checked for parity/isolation only (listed in c14_ref.go).",
+    "DESIGN.md §5 C14")
+add("C15", "brute-force reference matcher (pattern-language enumeration) + isolation metamorphic test, incl. Stop-flush deliveries",
+    "Every reported match must be a valid match of maximal length for its start, starts leftmost-first under the SKIP rule, MATCH_NUMBER consecutive, nothing omitted, unfinished accepting runs flushed at Stop, and a partition's output must equal its solo output.",
+    COMMON_NOTE + "≤ 4 variables, ≤ 12 events per partition; SQL:2016 preference among equal-length matches is not checked.",
+    "DESIGN.md §5 C15")
+add("C16", "sequential reference map over recorded histories + porcupine linearizability check of concurrent Upsert/Delete/lookup histories (child processes)",
+    "Sequential histories of EmitSync/Emit interleaved with Upsert/Delete are compared with a typed-tuple reference table (unique version ids identify the row used); concurrent histories of 4 readers + 2 writers are checked per key with porcupine against a register-with-delete model" + RACE + ".",
+    COMMON_NOTE + "NULL-vs-NULL key matches are unconstrained; a porcupine timeout is inconclusive.",
+    "DESIGN.md §5 C16")
+add("C17", "reference running aggregates + own predicate evaluator; per-group fire-sequence checker over the sink log",
+    "For each group the expected fire sequence (predicate true on the aggregates since the last fire) is compared with the deliveries: no fire while false, fire when true, aggregates over exactly the rows since the last fire, restart from empty, no influence of other groups.",
+    COMMON_NOTE + "Rows where the predicate is UNKNOWN (NULL aggregate) may or may not fire.",
+    "DESIGN.md §5 C17")
+add("C18", "lifecycle monitors in isolated child processes under the race detector: process status + log scan, sink-after-Stop flag, goroutine accounting, watchdog with re-run, survival and CEP-flush batches",
+    "12 query kinds × 3 strategies × 5 sink behaviours with concurrent Emit/EmitSync/AddSink/GetStats/TriggerWindow/Stop×2 on PRNG schedules with yield-point perturbation: no panic/fatal/race, no hang, no sink invoked after any Stop returned, no engine goroutine left, Emit after Stop silent, rows after a panicking row/sink still processed, CEP flush delivered before Stop returns.",
+    COMMON_NOTE + "A hang is a watchdog verdict (120 s, re-run twice). Batches with a forever-blocking sink are exempt from the sink-after-Stop clause until the sink is released.",
+    "DESIGN.md §5 C18")
+add("C19", "conservation / no-duplicate / per-producer-order checker on unique row ids, capacity observed at the expand.swap hook, one child process per configuration",
+    "Producers × buffer × growth/ceiling/threshold × consumer speed × strategy configurations with perturbation at the migration/consumer/sender yield points: processed + input_dropped_count = Emit calls at quiescence, no row twice, block without timeout never drops, capacity ≤ MaxBufferSize, single-producer order preserved; the evidence counts migrations that overlapped a consumer or a sender" + RACE + ".",
+    COMMON_NOTE + "Expand configurations without any observed targeted overlap make the run inconclusive rather than passing.",
+    "DESIGN.md §5 C19")
+add("C20", "deep-equality monitor on caller maps and delivered rows + solo-vs-paired differential over 13 query kinds",
+    "Maps passed to Emit/EmitSync are compared with deep copies at return and after quiescence; rows delivered to a sink are re-compared at the end; an instance's per-id results when paired with a concurrent second instance (same SQL, or different SQL sharing expression texts but differently typed rows) must equal its solo results" + RACE + ".",
+    COMMON_NOTE + "A paired difference must survive a re-run of both sides with a long settle period.",
+    "DESIGN.md §5 C20")
